@@ -239,35 +239,107 @@ impl Pool {
 			o => return Err(format!("constant pool index {i}: not loadable: {o:?}")),
 		})
 	}
-	/// every entry references entries of the right kind
+	/// every entry references entries of the right kind, and the descriptors of member references, dynamic
+	/// constants, call sites and method types follow the grammar of JVMS 4.3 (a file with a malformed
+	/// descriptor there is not a valid class file, whatever a lenient reader makes of it)
 	fn validate(&self) -> DResult<()> {
 		for (i, e) in self.e.iter().enumerate() {
 			let i = i as u16;
 			match e {
 				None => {}
-				Some(CP::Class(n)) | Some(CP::Str(n)) | Some(CP::MType(n)) | Some(CP::Module(n)) | Some(CP::Package(n)) => {
+				Some(CP::MType(n)) => {
+					let d = self.utf8(*n).map_err(|e| format!("entry {i}: {e}"))?;
+					method_descriptor_ok(&d).map_err(|e| format!("entry {i} (MethodType): {e}"))?;
+				}
+				Some(CP::Class(n)) | Some(CP::Str(n)) | Some(CP::Module(n)) | Some(CP::Package(n)) => {
 					self.utf8(*n).map_err(|e| format!("entry {i}: {e}"))?;
 				}
 				Some(CP::Nat(..)) => {
 					self.nat(i)?;
 				}
 				Some(CP::Field(..)) => {
-					self.member_ref(i, true)?;
+					let m = self.member_ref(i, true)?;
+					field_descriptor_ok(&m.2).map_err(|e| format!("entry {i} (Fieldref): {e}"))?;
 				}
 				Some(CP::Method(..)) | Some(CP::IMethod(..)) => {
-					self.member_ref(i, false)?;
+					let m = self.member_ref(i, false)?;
+					method_descriptor_ok(&m.2).map_err(|e| format!("entry {i} (Methodref): {e}"))?;
 				}
 				Some(CP::Handle(..)) => {
 					self.handle(i)?;
 				}
-				Some(CP::Dynamic(_, n)) | Some(CP::Indy(_, n)) => {
-					self.nat(*n)?;
+				Some(CP::Dynamic(_, n)) => {
+					let (_, d) = self.nat(*n)?;
+					field_descriptor_ok(&d).map_err(|e| format!("entry {i} (Dynamic): {e}"))?;
+				}
+				Some(CP::Indy(_, n)) => {
+					let (_, d) = self.nat(*n)?;
+					method_descriptor_ok(&d).map_err(|e| format!("entry {i} (InvokeDynamic): {e}"))?;
 				}
 				_ => {}
 			}
 		}
 		Ok(())
 	}
+}
+
+/// one FieldType of JVMS 4.3.2 at the start of `s`; returns the rest and the number of local-variable slots
+fn field_type(s: &str) -> DResult<(&str, usize)> {
+	let mut rest = s;
+	let mut dims = 0;
+	while let Some(r) = rest.strip_prefix('[') {
+		rest = r;
+		dims += 1;
+	}
+	if dims > 255 {
+		return Err(format!("more than 255 array dimensions in {s:?}"));
+	}
+	let mut chars = rest.chars();
+	match chars.next() {
+		Some('B' | 'C' | 'F' | 'I' | 'S' | 'Z') => Ok((chars.as_str(), 1)),
+		Some('D' | 'J') => Ok((chars.as_str(), if dims > 0 { 1 } else { 2 })),
+		Some('L') => {
+			let body = chars.as_str();
+			let end = body.find(';').ok_or_else(|| format!("class type without ';' in {s:?}"))?;
+			let name = &body[..end];
+			if name.is_empty() || name.split('/').any(|seg| seg.is_empty() || seg.contains(['.', '['])) {
+				return Err(format!("illegal class name {name:?} in descriptor {s:?}"));
+			}
+			Ok((&body[end + 1..], 1))
+		}
+		_ => Err(format!("not a field type: {s:?}")),
+	}
+}
+
+pub fn field_descriptor_ok(d: &str) -> DResult<()> {
+	match field_type(d)? {
+		("", _) => Ok(()),
+		(rest, _) => Err(format!("trailing {rest:?} after field descriptor {d:?}")),
+	}
+}
+
+pub fn method_descriptor_ok(d: &str) -> DResult<()> {
+	let mut rest = d.strip_prefix('(').ok_or_else(|| format!("method descriptor {d:?} does not start with '('"))?;
+	let mut slots = 0;
+	loop {
+		if let Some(r) = rest.strip_prefix(')') {
+			rest = r;
+			break;
+		}
+		if rest.is_empty() {
+			return Err(format!("method descriptor {d:?} has no ')'"));
+		}
+		let (r, n) = field_type(rest)?;
+		rest = r;
+		slots += n;
+	}
+	if slots > 255 {
+		return Err(format!("method descriptor {d:?} needs more than 255 parameter slots"));
+	}
+	if rest == "V" {
+		return Ok(());
+	}
+	field_descriptor_ok(rest)
 }
 
 fn read_pool(r: &mut R) -> DResult<Pool> {
@@ -996,12 +1068,17 @@ pub fn decode_prefix(bytes: &[u8]) -> DResult<Decoded> {
 	}
 	// members: keep the raw attributes until BootstrapMethods is known
 	let mut raw_members: Vec<Vec<(u16, String, String, Vec<(String, &[u8])>)>> = Vec::new();
-	for _ in 0..2 {
+	for kind in 0..2 {
 		let mut list = Vec::new();
 		for _ in 0..r.u16()? {
 			let access = r.u16()?;
 			let name = pool.utf8(r.u16()?)?;
 			let desc = pool.utf8(r.u16()?)?;
+			if kind == 0 {
+				field_descriptor_ok(&desc).map_err(|e| format!("field {name}: {e}"))?;
+			} else {
+				method_descriptor_ok(&desc).map_err(|e| format!("method {name}: {e}"))?;
+			}
 			list.push((access, name, desc, raw_attrs(&mut r, &pool)?));
 		}
 		raw_members.push(list);
